@@ -15,6 +15,9 @@ impl<T: UniMerge + UniIngest> Chunky for U<T> {
     fn fresh() -> Self {
         U(T::fresh())
     }
+    fn dflt_() -> Self {
+        U(T::dflt())
+    }
     fn collect(items: &[f64]) -> Self {
         U(T::collect_vals(items))
     }
@@ -56,6 +59,9 @@ macro_rules! impl_pair {
             const NAME: &'static str = $name;
             fn fresh() -> Self {
                 <$t>::new()
+            }
+            fn dflt_() -> Self {
+                Default::default()
             }
             fn collect(items: &[(f64, f64)]) -> Self {
                 items.iter().copied().collect()
@@ -327,3 +333,56 @@ macro_rules! impl_ingest_pair {
 impl_ingest_pair!(WeightedMean);
 impl_ingest_pair!(WeightedMeanWithError);
 impl_ingest_pair!(Covariance);
+
+/// Like `HistChunk`, over an edge vector with a repeated edge (a zero-width bin): 0, 1, 1, 2, …
+#[derive(Clone)]
+pub struct HistChunkRep<H: Hist>(pub H);
+impl<H: Hist> Chunky for HistChunkRep<H> {
+    type Item = f64;
+    const NAME: &'static str = H::NAME;
+    fn fresh() -> Self {
+        let mut e: Vec<f64> = (0..=H::LEN).map(|i| i as f64).collect();
+        if H::LEN >= 2 {
+            e[2] = e[1];
+        } else {
+            e[1] = e[0];
+        }
+        HistChunkRep(H::from_ranges_(e).expect("valid edges"))
+    }
+    fn collect(items: &[f64]) -> Self {
+        let mut h = Self::fresh();
+        for x in items {
+            let _ = h.0.add_(*x);
+        }
+        h
+    }
+    fn merge_(&mut self, o: &Self) {
+        self.0.merge_(&o.0)
+    }
+    fn add_item(&mut self, i: f64) {
+        let _ = self.0.add_(i);
+    }
+    fn item_bits(i: &f64) -> Vec<u64> {
+        vec![i.to_bits()]
+    }
+    fn dbg(&self) -> String {
+        self.0.dbg()
+    }
+    fn observe_(&self) -> Obs {
+        HistChunk(self.0.clone()).observe_()
+    }
+    fn item_json(i: &f64) -> Value {
+        fshow(*i)
+    }
+    fn item_parse(v: &Value) -> Option<f64> {
+        fparse(v)
+    }
+}
+impl<H: Hist + serde::Serialize + serde::de::DeserializeOwned> SerChunky for HistChunkRep<H> {
+    fn to_json(&self) -> Result<String, String> {
+        serde_json::to_string(&self.0).map_err(|e| e.to_string())
+    }
+    fn from_json(s: &str) -> Result<Self, String> {
+        serde_json::from_str(s).map(HistChunkRep).map_err(|e| e.to_string())
+    }
+}
